@@ -141,6 +141,28 @@ recover(void)
                 viol("reattach-failed", "imb_set_pointers_mb_mgr returned NULL", -1, 0);
                 return 1;
         }
+        /* every handler of the manager must now be the one a freshly initialised manager of the same variant has in THIS
+         * process (in an exec'ed process the library sits at another address: a pointer that was not re-bound is stale) */
+        {
+                int fv = -1;
+                for (int q = 0; q < NVARIANTS; q++)
+                        if ((uint32_t) VARIANTS[q].arch == m->used_arch && (uint32_t) VARIANTS[q].type == m->used_arch_type)
+                                fv = q;
+                static IMB_MGR *fresh[NVARIANTS];
+                if (fv >= 0 && !fresh[fv])
+                        fresh[fv] = mgr_new(fv);
+                if (fv >= 0 && fresh[fv]) {
+                        const size_t lo = offsetof(IMB_MGR, get_next_job), hi = offsetof(IMB_MGR, earliest_job);
+                        const uint8_t *pa = (const uint8_t *) m + lo, *pb = (const uint8_t *) fresh[fv] + lo;
+                        for (size_t o = 0; o + 8 <= hi - lo; o += 8)
+                                if (memcmp(pa + o, pb + o, 8) && lo + o != offsetof(IMB_MGR, self_test_cb_fn) && lo + o != offsetof(IMB_MGR, self_test_cb_arg)) {
+                                        viol("handler-not-rebound", "a function pointer of the re-attached manager differs from the one a freshly initialised manager of the same variant has in this process (x = byte offset in IMB_MGR)",
+                                             (int) (lo + o), 0);
+                                        bad = 1;
+                                        break;
+                                }
+                }
+        }
         if (X_QUEUE_SIZE(m) != (uint32_t) A->n_inflight) {
                 viol("queue-size-after-reattach", "queue size differs from the number of jobs in flight at the crash point", -1,
                      X_QUEUE_SIZE(m));
